@@ -256,7 +256,15 @@ fn gen_pool(r: &mut Rng) -> Pool {
     for (k, d) in p.datas.iter_mut().enumerate() {
         if let crate::val::RVal::Object(kv) = d {
             kv.push(("dynp".into(), crate::val::RVal::Str(format!("dyn{}", k % 2))));
+            // per-data inputs for filters whose nodes (or process-wide helpers) might memoise the
+            // last input: long enough to be worth caching, different for every data object
+            kv.push(("html".into(), crate::val::RVal::Str(format!("<p class=\"k{k}\">paragraph number {k} <b>bold {k}</b> and <i>more text</i></p><!-- c{k} -->"))));
+            kv.push(("when".into(), crate::val::RVal::Str(format!("20{:02}-0{}-1{} 0{}:30:00 +0{}00", 10 + k, 1 + k % 8, k % 9, k % 9, k % 9))));
+            kv.push(("words".into(), crate::val::RVal::Str(format!("alpha-{k} beta-{k} gamma-{k} delta-{k} epsilon-{k} zeta-{k}"))));
         }
+    }
+    for m in p.mains.iter_mut() {
+        m.push_str("{{ html | strip_html }}|{{ when | date: '%Y-%m-%d %H:%M %z' }}|{{ words | split: ' ' | sort | join: ',' | upcase | truncate: 40 }}|{{ html | escape_once | size }}|{{ words | replace: 'a', 'A' | url_encode | size }}");
     }
     if p.mains.len() > 2 {
         let tail = if r.chance(1, 2) { "{% include 'pbroken' %}" } else { "{% render 'missing' %}" };
